@@ -56,6 +56,7 @@ class Dev(object):
             raise nfc.clf.TransmissionError("crc")
         if kind == 'absent':
             return None
+        self._rec('found', target.brty)
         if target.brty.endswith('A'):
             return nfc.clf.RemoteTarget(
                 target.brty, sens_res=bytearray.fromhex("4400"),
@@ -105,6 +106,7 @@ class Dev(object):
         t = nfc.clf.LocalTarget("212F", sensf_res=target.sensf_res)
         t.sensf_req = bytearray.fromhex("00ffff0000")
         t.tt3_cmd = self._read_cmd(target)
+        self._rec('discovered', target.brty)
         return t
 
     def _read_cmd(self, target):
@@ -358,7 +360,12 @@ def connect_case(case):
     if 'ret' not in out:
         return [('connect|no-return|%s' % s.verdict,
                  dict(stuck=s.stuck()))], 'stuck'
-    bad = contract.check_connect(opts, log, out['ret'], objs, term_at)
+    happened = dict(
+        rdwr=len([e for e in log if e[:2] == ('dev', 'found')]),
+        card=len([e for e in log if e[:2] == ('dev', 'discovered')]),
+        llcp=getattr(p, 'activations', 0))
+    bad = contract.check_connect(opts, log, out['ret'], objs, term_at,
+                                 happened)
     r = out['ret']
     outcome = (r[0], contract.ret_class(r[1]) if r[0] == 'ret' else
                type(r[1]).__name__,
